@@ -7,6 +7,9 @@
 #include "../NumConstants.h"
 #include "SimpleDiscreteDistribution.h"
 
+#include <cmath>
+#include <limits>
+
 using namespace bpp;
 using namespace std;
 
@@ -184,14 +187,25 @@ void SimpleDiscreteDistribution::fireParameterChanged(const ParameterList& param
       if (distribution_.find(v2) != distribution_.end())
       {
         int j(1);
+        // The value is moved by multiples of the precision, but not less than a few spacings of the
+        // doubles around it (a precision of 0, or one that is absorbed by the addition, would never
+        // lead to another key), to the first free position inside the domain; when the domain has no
+        // room left on either side, to the first free position outside of it.
+        double step = std::max(precision(), 4 * std::numeric_limits<double>::epsilon() * std::abs(v));
+        if (!(step > 0))
+          step = std::numeric_limits<double>::min();
         while (true)
         {
-          v2 = v + j * precision();
-          if (v2 < intMinMax_->getUpperBound() && (distribution_.find(v2) == distribution_.end()))
+          double up = v + j * step;
+          double down = v - j * step;
+          bool exhausted = !(up < intMinMax_->getUpperBound()) && !(down > intMinMax_->getLowerBound());
+
+          v2 = up;
+          if ((up < intMinMax_->getUpperBound() || exhausted) && (distribution_.find(v2) == distribution_.end()))
             break;
 
-          v2 = v - j * precision();
-          if (v2 > intMinMax_->getLowerBound() && (distribution_.find(v2) == distribution_.end()))
+          v2 = down;
+          if ((down > intMinMax_->getLowerBound() || exhausted) && (distribution_.find(v2) == distribution_.end()))
             break;
           j++;
         }
